@@ -270,9 +270,14 @@ func (sesh *Session) recvDataFromRemote(data []byte) error {
 			// The accept backlog is full. Blocking here would stall this connection's receive loop while
 			// holding streamsM - and with it every other stream and the teardown of the session - until
 			// someone calls Accept, which never happens once the session is closed. Refuse the stream
-			// instead: its id is remembered as closed so that its later frames are dropped.
-			sesh.streams[frame.StreamID] = nil
+			// instead, and say so: it is registered like any other and closed from our side at once, so that
+			// the peer gets a stream-closing frame (its writes fail and its readers return, instead of
+			// waiting on a stream nobody serves) and later frames of the stream are dropped. Closing sends
+			// a frame, so not from here: this is a connection's receive loop and must not wait for a write
+			sesh.streams[frame.StreamID] = newStream
 			sesh.streamsM.Unlock()
+			sesh.streamCountIncr()
+			go newStream.Close()
 			return errAcceptBacklogFull
 		}
 		sesh.streamsM.Unlock()
